@@ -204,6 +204,23 @@ class Func:
                 if kind is None or e["k"] == kind:
                     yield b, i, e
 
+    def all_trees(self):
+        """every expression tree of the function: (block, line, tree) for event operands and branch conditions"""
+        for b in self.blocks.values():
+            for e in b.ev:
+                for fld in ("rhs", "init", "expr"):
+                    if fld in e and isinstance(e[fld], dict) and "tree" in e[fld]:
+                        yield b, e.get("line"), e[fld]["tree"]
+                if "lhs_tree" in e:
+                    yield b, e.get("line"), e["lhs_tree"]
+                if e["k"] == "call":
+                    for a in e.get("args", []):
+                        if a.get("tree") is not None:
+                            yield b, e.get("line"), a["tree"]
+            t = b.term
+            if t and "cond" in t:
+                yield b, t.get("line"), t["cond"].get("full_tree") or t["cond"]["tree"]
+
     def calls(self):
         return self.events("call")
 
